@@ -179,7 +179,8 @@ Section Jar.
     a_path : option text; a_domain : option text; a_comment : option text;   (* str or None *)
     a_secure : bool; a_httponly : bool;
     a_samesite : option text;
-    a_date : str                           (* ABSTRACT: what serialize_cookie_date prints for utcnow()+max_age *)
+    a_date : str;                          (* ABSTRACT: what serialize_cookie_date prints for utcnow()+max_age *)
+    a_validate : bool                      (* CONFIGURATION: webob.cookies.SAMESITE_VALIDATION when the call is made *)
   }.
 
   (* str(int) *)
@@ -234,7 +235,10 @@ Section Jar.
     match truthy (m_samesite m) with
     | Some ss =>
         if negb (m_secure m) && is_none ss then Raise ValueError
-        else Ok (join_semi ([head] ++ valued_parts m ++ exp ++ sec ++ ho ++ [H "53616d65536974653d"%string ++ ss]))
+        else
+          (* text_(b"; ".join(result), "ascii"): only a free-form SameSite (validation off) can be non-ASCII *)
+          let line := join_semi ([head] ++ valued_parts m ++ exp ++ sec ++ ho ++ [H "53616d65536974653d"%string ++ ss]) in
+          if is_ascii ss then Ok line else Raise UnicodeDecodeError
     | None => Ok (join_semi ([head] ++ valued_parts m ++ exp ++ sec ++ ho))
     end.
 
@@ -244,7 +248,7 @@ Section Jar.
     | Some t => if is_latin1 t then Ok (Some t) else Raise UnicodeEncodeError
     end.
 
-  (* make_cookie(name, value, …) with value already bytes or None; SAMESITE_VALIDATION = True *)
+  (* make_cookie(name, value, …) with value already bytes or None; SAMESITE_VALIDATION = a_validate *)
   Definition make_cookie (a : ckargs) (value : option str) : res str :=
     let '(vbytes, max_age, expires) :=
       match value with
@@ -265,7 +269,7 @@ Section Jar.
     match latin1_opt (a_comment a) with Raise e => Raise e | Ok com =>
     match latin1_opt (a_samesite a) with Raise e => Raise e | Ok ss =>
     match (match ss with
-           | Some s => if negb (samesite_ok s) then Raise ValueError else Ok tt
+           | Some s => if a_validate a && negb (samesite_ok s) then Raise ValueError else Ok tt
            | None => Ok tt
            end) with
     | Raise e => Raise e
@@ -322,7 +326,7 @@ Section Jar.
 
   (* Response.delete_cookie(name, path, domain) = set_cookie(name, None, path=path, domain=domain) *)
   Definition delete_args (name : text) (path domain : option text) : ckargs :=
-    mkArgs name None None path domain None false false None [].
+    mkArgs name None None path domain None false false None [] true.
   Definition delete_cookie (hl : headerlist) (name : text) (path domain : option text) : headerlist * res unit :=
     set_cookie hl (delete_args name path domain) false.
 
@@ -352,6 +356,7 @@ Section Jar.
   | XDelete (who : bool) (name : text) (path domain : option text)
   | XUnset (who : bool) (name : text) (strict : bool)
   | XMerge (from : bool)                    (* responses[from].merge_cookies(responses[not from]) *)
+  | XMergeSelf (who : bool)                 (* resp.merge_cookies(resp): the very same object *)
   | XAddRaw (who : bool) (key line : str).  (* resp.headers.add(key, line): a header written by other code *)
 
   Definition xstate := (headerlist * headerlist)%type.
@@ -364,6 +369,7 @@ Section Jar.
     | XDelete w n p d => let '(hl, r) := delete_cookie (pick w s) n p d in (put w s hl, r)
     | XUnset w n st => let '(hl, r) := unset_cookie (pick w s) n st in (put w s hl, r)
     | XMerge f => (put (negb f) s (merge_cookies (pick f s) (pick (negb f) s)), Ok tt)
+    | XMergeSelf w => (put w s (merge_cookies (pick w s) (pick w s)), Ok tt)
     | XAddRaw w k l => (put w s (pick w s ++ [(k, l)]), Ok tt)
     end.
 
